@@ -41,5 +41,13 @@ def correspondence(ctx):
                 "import sys; sys.path.insert(0, %r); sys.path.insert(0, %r)\nfrom harness import arrays\nclass X: seed=%d; tier=%r\n"
                 "problems, _, _ = arrays.c19_run(X)\nhit=[d for k, d in problems if k==%r]\nassert not hit, hit[0]\n"
                 % (C.VERIF, C.VERIF + "/tools", ctx.seed, ctx.tier, k))})
-    out["ok"] = out["ok"] and not seen and not lseen
+    # scaling / negation / unit / addition on Awkward momentum arrays whose records carry raw momentum-spelled fields: the RESULT read back
+    from harness import c14
+    rb, rn = c14.raw_awkward_spellings("ops")
+    out["stats"]["raw_awkward_two_step_reads"] = rn
+    for d in rb[:3]:
+        out["disagreements"].append(d[:300])
+        out["failing_inputs"].append({"key": "awkward-raw-two-step:" + d.split(":")[1].strip()[:20], "what": d[:400],
+                                      "code": c14.RAW_REPLAY.replace("raw_awkward_spellings()", "raw_awkward_spellings('ops')")})
+    out["ok"] = out["ok"] and not seen and not lseen and not rb
     return out
